@@ -178,3 +178,52 @@ ground_truth = Contract(
 )
 ground_truth.opaque = _GT_OPAQUE
 CONTRACTS.append(ground_truth)
+
+# ------------------------------------------------------------------------------------------- RewriteAtQuery.visit_FunctionDef
+def _arg(loc_len=2):
+    return ("node", "ast.arg", {"arg": "str", "annotation": None, "_location": ("list", ["str"] * loc_len), "_idx": "int"})
+
+
+def _vfd_case(npos, nkw):
+    return Case("pos=%d,kw=%d" % (npos, nkw), {
+        "self": ("node", "doctrans.ast_utils.RewriteAtQuery", {"search": ("list", ["str", "str"]), "replacement_node": ("node", "ast.arg", {"arg": "str", "annotation": ("obj", "ast.Name")}),
+                                                               "replaced": ("lit", False)}),
+        "node": ("node", "ast.FunctionDef", {"name": "str", "_location": ("list", ["str"]),
+                                             "args": ("node", "ast.arguments", {"args": ("list", [_arg() for _ in range(npos)]),
+                                                                                "kwonlyargs": ("list", [_arg() for _ in range(nkw)]),
+                                                                                "defaults": ("list", [("obj", "ast.Constant")] * npos)})}),
+    })
+
+
+def _frame(attr, n):
+    parts = []
+    for i in range(n):
+        first = " and ".join(["True"] + ["not (old_node.args.%s[%d]._location == self.search)" % (attr, j) for j in range(i)])
+        parts.append("((node.args.%s[%d] is old_node.args.%s[%d]) == (not (node._location == self.search[:-1] and old_node.args.%s[%d]._location == self.search and (%s))))"
+                     % (attr, i, attr, i, attr, i, first))
+    return " and ".join(parts) if parts else "True"
+
+
+visit_function_def = Contract(
+    "doctrans.ast_utils:RewriteAtQuery.visit_FunctionDef",
+    properties=["C14", "C11", "C15"],
+    note="argument replacement (the replacement is already an ast.arg; emit_arg is opaque); argument lists of length <= 2 + 2",
+    cases=[_vfd_case(2, 0), _vfd_case(2, 1), _vfd_case(1, 2), _vfd_case(0, 2)],
+    ensures=[
+        Clause("VF-node", "result is node", note="the function node itself is kept"),
+        Clause("VF-pos-frame[2]", _frame("args", 2), when=["pos=2,kw=0", "pos=2,kw=1"],
+               note="C14.D3 / C11.D2: a positional argument is replaced iff its location is the searched one (first match); every other stays the same object"),
+        Clause("VF-pos-frame[1]", _frame("args", 1), when=["pos=1,kw=2"]),
+        Clause("VF-kw-frame[1]", _frame("kwonlyargs", 1), when=["pos=2,kw=1"],
+               note="a keyword-only argument is replaced iff its location is the searched one; positional arguments are not touched on its behalf"),
+        Clause("VF-kw-frame[2]", _frame("kwonlyargs", 2), when=["pos=1,kw=2", "pos=0,kw=2"]),
+        Clause("VF-lengths", "len(node.args.args) == len(old_node.args.args) and len(node.args.kwonlyargs) == len(old_node.args.kwonlyargs)",
+               note="no argument is added or dropped"),
+        Clause("VF-defaults", "all(node.args.defaults[i] is old_node.args.defaults[i] for i in range(len(old_node.args.defaults)))",
+               note="replacing with a bare argument leaves the defaults alone"),
+    ],
+    raises={"AssertionError": "False"},
+    canaries=["node.args.args[0] is old_node.args.args[0]"] ,
+)
+visit_function_def.opaque = {"emit_arg": {"ret": ("obj", "ast.arg")}, "get_value": {"ret": "obj"}}
+CONTRACTS.append(visit_function_def)
